@@ -136,7 +136,11 @@ def classify(fn, args, kwargs, level):
         v["outcome"] = "ok"
     except st["TypeCheckError"] as e:
         v["outcome"] = "TCE"
-        v.update(parse_tce(str(e)))
+        try:
+            v.update(parse_tce(str(e)))
+        except ValueError:
+            if level != "exact":        # (symbolic sizes in the printed bindings: only the outcome class is compared there)
+                raise
         v["has_cause"] = e.__cause__ is not None
     except st["AnnotationError"]:
         v["outcome"] = "AnnErr"
@@ -289,11 +293,42 @@ def run_jax_variants(case, checkers=("beartype", "typeguard"), seed=0, prime=Non
             "vmap_partial": lambda: jax.vmap(lambda *xs: fn(*xs), in_axes=(0,) + (None,) * (n - 1))(
                 jnp.stack([a[0], a[0]]), *a[1:]),
         }
+        # shape-polymorphic tracing: sizes >= 2 become symbolic dimensions (equal sizes -> the same symbol), where that
+        # keeps the meaning of the case: no '#' (size 1 / NumPy broadcasting), no symbolic expression, and the size is not
+        # written as a literal anywhere in the signature.  Checking must not force a symbolic size to a number.
+        toks_all = [t for p in case["params"] for t in p["toks"]] + list(case["rettoks"] if case["hasret"] else [])
+        literals = {t["base"]["v"] for t in toks_all if t["base"]["k"] == "int"}
+        if not any("#" in t["mods"] or t["base"]["k"] == "sym" for t in toks_all) and not case.get("args"):
+            sizes = sorted({d for sh in list(case["shapes"]) + ([case["retshape"]] if case["hasret"] else []) for d in sh
+                            if d >= 2 and d not in literals})
+            if sizes:
+                from jax import export
+                syms = dict(zip(sizes, export.symbolic_shape(", ".join(f"s{d}" for d in sizes))))
+                symshape = lambda sh: tuple(syms.get(d, d) for d in sh)
+                if case["hasret"]:
+                    RETSYM[0] = jax.ShapeDtypeStruct(symshape(case["retshape"]), jnp.float32)
+
+                def sym_thunk():
+                    def body(*xs):
+                        keep = RET[0]
+                        try:
+                            if case["hasret"]:
+                                RET[0] = jnp.zeros(RETSYM[0].shape, jnp.float32)     # an abstract value of the symbolic shape
+                            return fn(*xs)
+                        finally:
+                            RET[0] = keep
+                    return jax.eval_shape(body, *[jax.ShapeDtypeStruct(symshape(x.shape), x.dtype) for x in a])
+                v = classify(lambda: sym_thunk(), [], {}, "exact")
+                v["desc"] = f"{ck}/eval_shape_symbolic_dims"
+                variants.append(v)
         for name, thunk in trans.items():
             v = classify(lambda: thunk(), [], {}, "exact")
             v["desc"] = f"{ck}/{name}"
             variants.append(v)
     return variants
+
+
+RETSYM = [None]
 
 
 def run_jax_varkw(case, checkers=("beartype", "typeguard"), seed=0):
